@@ -439,7 +439,7 @@ func goodLine(r *h.Rand, i int) string {
 	case 1:
 		return m + ",t=a v=1.5 " + strconv.FormatInt(r.Range(0, 1700000000), 10)
 	case 2:
-		return m + ",host=h" + strconv.Itoa(i) + ",r=us f=1i,g=\"s t\",h=true 1609459200000000000"
+		return m + ",host=h" + strconv.Itoa(i) + ",r=us f=1i,g=\"s t\",h=true 1609459200"
 	case 3:
 		return m + ` v="a\"b,c=d"`
 	case 4:
